@@ -145,6 +145,7 @@ func (x *Evaluator) bindCall(callee *ssa.Function, args []ssa.Value, e *env, c *
 func (x *Evaluator) summarise(ne *env, idx int) Val {
 	reach := x.reachable(ne)
 	var vals []Val
+	var retBlocks []*ssa.BasicBlock
 	for _, b := range ne.fn.Blocks {
 		if !reach[b] || len(b.Instrs) == 0 {
 			continue
@@ -157,6 +158,24 @@ func (x *Evaluator) summarise(ne *env, idx int) Val {
 			continue
 		}
 		vals = append(vals, x.eval(r.Results[idx], ne))
+		retBlocks = append(retBlocks, b)
+	}
+	if len(vals) == 2 {
+		// two success returns separated by a decision (early return): the same choice as a
+		// two-way merge, keyed by the condition under which the second return is reached
+		if s0, ok0 := vals[0].(StrV); ok0 {
+			if s1, ok1 := vals[1].(StrV); ok1 {
+				for i := 1; i >= 0; i-- {
+					if desc, pol, ok := x.pathCond(retBlocks[i], retBlocks[1-i], ne); ok {
+						this, other := []StrV{s0, s1}[i], []StrV{s0, s1}[1-i]
+						if pol {
+							return strV(mkKeyedAlt("if:"+desc, this.T, other.T))
+						}
+						return strV(mkKeyedAlt("if:"+desc, other.T, this.T))
+					}
+				}
+			}
+		}
 	}
 	{
 		var nb []Val
@@ -225,6 +244,54 @@ func (x *Evaluator) summarise(ne *env, idx int) Val {
 		return ListV{Elem: joinVals(elems), Origin: "ret:" + ne.fn.Name()}
 	}
 	return vals[0]
+}
+
+// pathCond: the single undecided condition under which blk is reached and other is not:
+// every two-way decision above blk that has blk on exactly one side contributes a literal;
+// literals folded to constants by the bound arguments drop out.  ok only when exactly one
+// literal remains; pol tells whether blk is reached when it is true.
+func (x *Evaluator) pathCond(blk, other *ssa.BasicBlock, e *env) (string, bool, bool) {
+	type lit struct {
+		desc string
+		pol  bool
+	}
+	var lits []lit
+	for d := blk.Idom(); d != nil; d = d.Idom() {
+		if len(d.Instrs) == 0 || len(d.Succs) != 2 {
+			continue
+		}
+		ifi, ok := d.Instrs[len(d.Instrs)-1].(*ssa.If)
+		if !ok {
+			continue
+		}
+		t := (d.Succs[0] == blk || d.Succs[0].Dominates(blk)) && len(d.Succs[0].Preds) == 1
+		f := (d.Succs[1] == blk || d.Succs[1].Dominates(blk)) && len(d.Succs[1].Preds) == 1
+		if t == f {
+			continue
+		}
+		bv, _ := x.eval(ifi.Cond, e).(BoolV)
+		if bv.Const != nil {
+			continue
+		}
+		desc := bv.Desc
+		if desc == "" {
+			desc = ifi.Cond.Name()
+		}
+		if bv.Data != "" {
+			desc = "data:" + desc
+		}
+		pol := t
+		// a negated description names the positive condition with the polarity flipped
+		for strings.HasPrefix(desc, "!") {
+			desc = desc[1:]
+			pol = !pol
+		}
+		lits = append(lits, lit{desc, pol})
+	}
+	if len(lits) != 1 {
+		return "", false, false
+	}
+	return lits[0].desc, lits[0].pol, true
 }
 
 // bottomV: no value (the activation has no success return).
